@@ -1,4 +1,5 @@
 CONSTANTS MaxN = 2048 MaxM = 300
 SPECIFICATION Spec
 INVARIANT SplitOK
+INVARIANT LoopOK
 CHECK_DEADLOCK FALSE
